@@ -56,6 +56,12 @@ def constants():
     t += f"def MSG_LAST_PRINTABLE : Nat := {msg_mod._LAST_PRINTABLE}\n"
     t += f"def MAX_PROTOCOL_MESSAGE_LENGTH : Nat := {MAX_PROTOCOL_MESSAGE_LENGTH}\n"
 
+    from btclib.p2p import address as addr_mod, inventory as inv_mod
+    t += f"/-- `Addr.parse`: cap of the address count -/\ndef MAX_ADDR_TO_SEND : Nat := {addr_mod.MAX_ADDR_TO_SEND}\n"
+    t += f"/-- `Inv/GetData/NotFound.parse`: cap of the item count -/\ndef MAX_INV_SZ : Nat := {inv_mod.MAX_INV_SZ}\n"
+    t += f"/-- `GetBlocks/GetHeaders.parse`: cap of the locator count -/\ndef MAX_LOCATOR_SZ : Nat := {inv_mod.MAX_LOCATOR_SZ}\n"
+    t += f"/-- `Headers.parse`: cap of the header count -/\ndef MAX_HEADERS_RESULTS : Nat := {inv_mod.MAX_HEADERS_RESULTS}\n"
+
     def order(fields):
         # emission order of a PSBT map: (type byte, or 256 for `unknown`) in the order of _SERIALIZED_FIELDS
         out = []
